@@ -78,6 +78,9 @@ static Pt gen_point(vh::Rng& r) {
    p.tb.yukawa_type = static_cast<thdm::Yukawa_type>(1 + r.range(4));   // types without "ignored parameter" warnings need zeta = 0 = Pi
    p.tb.zeta_u = p.tb.zeta_d = p.tb.zeta_l = 0; p.tb.Pi_u.setZero(); p.tb.Pi_d.setZero(); p.tb.Pi_l.setZero();
    p.running = r.chance(0.5); p.complex_ckm = r.chance(0.5);
+   // one MSSM point in three where the conversion is hardest (left and right smuon parameters within 3 %, large mu tan(beta)): the fixed-point iteration for
+   // me2 fails there and the root-finder fallback runs - code that ordinary points never execute, in the sequential and in the threaded runs
+   if (r.chance(0.33)) { p.mp.tb = r.LU(20, 60); p.mp.mu = r.sign() * r.LU(1000, 3000); p.mp.ml[1] = r.LU(200, 1500); p.mp.me[1] = p.mp.ml[1] * (1 + r.U(-0.03, 0.03)); }
    return p;
 }
 static SM sm_of(const Pt& p) {
@@ -95,7 +98,7 @@ static bool eval_point(const Pt& p, Vec& res, bool via_conversion) {
       if (p.mssm) {
          MSSMNoFV_onshell m = make_mssm_pt(p);
          if (m.get_problems().have_problem() || m.get_problems().have_warning()) return false;
-         if (via_conversion) { MSSMNoFV_onshell b(m); b.set_Mu(p.mp.mu * 1.01); b.set_MassB(p.mp.m1 * 0.99); b.convert_to_onshell(1e-8, 1000); if (b.get_problems().have_warning() || b.get_problems().have_problem()) return false; for (auto& f : MFS) res.push_back(f.f(b)); }
+         if (via_conversion) { MSSMNoFV_onshell b(m); b.set_Mu(p.mp.mu * 1.01); b.set_MassB(p.mp.m1 * 0.99); b.set_ml2(1, 1, p.mp.ml[1] * p.mp.ml[1] * 0.98); b.set_me2(1, 1, p.mp.me[1] * p.mp.me[1] * 1.04); b.convert_to_onshell(1e-8, 1000); if (b.get_problems().have_warning() || b.get_problems().have_problem()) return false; for (auto& f : MFS) res.push_back(f.f(b)); }
          for (auto& f : MFS) res.push_back(f.f(m));
       } else {
          thdm::Config c; c.running_couplings = p.running;
